@@ -17,7 +17,7 @@ RULE = ("random (stated velocity, stated powder temperature, modifier | second m
         "explicit powder temperature; non-trivial when sensitivity is on and the query/second temperature differs "
         "from the stated one")
 MUST_OBSERVE = ["off_queries", "linear_queries", "calibrations", "calib_dv-_dT-", "calib_dv-_dT+", "calib_dv+_dT-",
-                "calib_dv+_dT+", "degenerate_rejected", "launches", "launch_powder_t_given", "launch_powder_t_default", "restated", "zeroing_launches", "bare_ints_passed"]
+                "calib_dv+_dT+", "degenerate_rejected", "launches", "launch_powder_t_given", "launch_powder_t_default", "restated", "zeroing_launches", "bare_ints_passed", "restated_in_one_session"]
 ASSUMPTIONS = ["temperatures converted to Celsius and velocities to m/s with exact affine/linear maps (C06 covers the library's)"]
 TU = ["Celsius", "Fahrenheit", "Kelvin", "Rankin"]
 VU = {"MPS": 1.0, "FPS": 0.3048, "KMH": 1 / 3.6, "MPH": 0.44704, "KT": 1852 / 3600}
@@ -167,8 +167,23 @@ def _check_case(ctx, case):
     elif kind == "restate":
         m = case["modifier"]
         ammo.get_velocity_for_temp(_temp(case["queries"][0]))         # first use of the sensitivity model
+        # a session keeps one calculator, one atmosphere and one shot for everything below; otherwise each is made when needed
+        session = case.get("session")
+        the_atmo = Atmo(Distance.Foot(0), pb.Pressure.hPa(1000), Temperature.Celsius(case["air_c"]))
+        the_calc = Calculator()
+        the_shot = Shot(Weapon(Distance.Inch(2)), ammo, atmo=the_atmo)
+        if session:
+            ctx.count("restated_in_one_session")
         if case.get("fire_first"):
-            Calculator().fire(Shot(Weapon(Distance.Inch(2)), ammo), Distance.Foot(30), Distance.Foot(10))
+            if session:
+                the_calc.fire(the_shot, Distance.Foot(30), Distance.Foot(10))
+                if case.get("zero_first"):
+                    try:
+                        the_calc.set_weapon_zero(the_shot, Distance.Foot(150))
+                    except (pb.ZeroFindingError, pb.RangeError):
+                        pass
+            else:
+                Calculator().fire(Shot(Weapon(Distance.Inch(2)), ammo), Distance.Foot(30), Distance.Foot(10))
         ammo.mv = _vel(case["v_new"]) if case["v_new"]["bare"] is False else PreferredUnits.velocity(_vel(case["v_new"]))
         ammo.powder_temp = _temp(dict(case["t_new"], bare=False))
         v0n, t0n = ammo.mv >> Velocity.MPS, ammo.powder_temp >> Temperature.Celsius
@@ -184,12 +199,32 @@ def _check_case(ctx, case):
         got0 = ammo.get_velocity_for_temp(ammo.powder_temp) >> Velocity.MPS
         if not close(got0, v0n, v0n):
             ctx.violation("restated.anchor", f"after re-stating: v(stated powder temperature) = {got0!r} != stated {v0n!r}", case)
-        res = Calculator().fire(Shot(Weapon(Distance.Inch(2)), ammo, atmo=Atmo(Distance.Foot(0), pb.Pressure.hPa(1000), Temperature.Celsius(case["air_c"]))),
-                                Distance.Foot(30), Distance.Foot(10))
-        want = v0n + m * v0n / 15.0 * ((Temperature.Celsius(case["air_c"]) >> Temperature.Celsius) - t0n)
-        ctx.count("launches")
-        if not close(res[0].velocity >> Velocity.MPS, want, max(abs(v0n), abs(want))):
-            ctx.violation("restated.launch-speed", f"after re-stating: first row speed {res[0].velocity >> Velocity.MPS!r}, expected {want!r}", case)
+        air = Temperature.Celsius(case["air_c"]) >> Temperature.Celsius
+
+        def launch(what, want):
+            if session:
+                res = the_calc.fire(the_shot, Distance.Foot(30), Distance.Foot(10))
+            else:
+                res = Calculator().fire(Shot(Weapon(Distance.Inch(2)), ammo, atmo=Atmo(Distance.Foot(0), pb.Pressure.hPa(1000), Temperature.Celsius(case["air_c"]))),
+                                        Distance.Foot(30), Distance.Foot(10))
+            ctx.count("launches")
+            if not close(res[0].velocity >> Velocity.MPS, want, max(abs(v0n), abs(want))):
+                ctx.violation("restated.launch-speed", f"{what}: first row speed {res[0].velocity >> Velocity.MPS!r} m/s, expected {want!r}"
+                                                       f"{' (same calculator, shot and atmosphere objects as the earlier calls)' if session else ''}", case)
+
+        launch("after re-stating", v0n + m * v0n / 15.0 * (air - t0n))
+        if case.get("then"):
+            # the session goes on: sensitivity switched off, then calibrated against a second measurement and switched on again
+            ammo.use_powder_sensitivity = False
+            launch("after switching the sensitivity off", v0n)
+            v1, t1 = case["then"]["v1"], case["then"]["t1"]
+            m2 = ammo.calc_powder_sens(Velocity.MPS(v1), Temperature.Celsius(t1))
+            launch("after calibrating with the sensitivity still off", v0n)
+            ammo.use_powder_sensitivity = True
+            launch("after calibrating and switching the sensitivity on", v0n + m2 * v0n / 15.0 * (air - t0n))
+            gotc = ammo.get_velocity_for_temp(Temperature.Celsius(t1)) >> Velocity.MPS
+            if not close(gotc, Velocity.MPS(v1) >> Velocity.MPS, max(abs(v1), abs(v0n))):
+                ctx.violation("restated.calibration-not-reproduced", f"after re-stating and calibrating with ({v1} m/s, {t1} C): v({t1} C) = {gotc!r}", case)
         ctx.case(case, nontrivial=True)
     elif kind == "launch":
         m = case["modifier"]
@@ -252,8 +287,11 @@ def gen_case(rng):
     elif kind == "restate":
         case["v0"] = vel(300, 1000)
         case.update(use=True, modifier=round(rng.uniform(-0.04, 0.04), 5), queries=[tmp(-40, 60) for _ in range(3)],
-                    v_new=dict(vel(300, 1000), bare=False), t_new=tmp(-30, 40), fire_first=rng.random() < 0.5,
-                    air_c=round(rng.uniform(-20, 40), 1))
+                    v_new=dict(vel(300, 1000), bare=False), t_new=tmp(-30, 40), fire_first=rng.random() < 0.6,
+                    air_c=round(rng.uniform(-20, 40), 1), session=rng.random() < 0.6, zero_first=rng.random() < 0.3)
+        if rng.random() < 0.6:
+            case["then"] = {"v1": round(case["v_new"]["v_mps"] * rng.choice([0.93, 0.97, 1.04, 1.08]), 2),
+                            "t1": round(case["t_new"]["t_c"] + rng.choice([-25.0, -8.0, 12.0, 30.0]), 1)}
     elif kind == "calibration":
         v0 = case["v0"]["v_mps"]
         dv = rng.choice([-1, 1]) * rng.choice([round(rng.uniform(0.5, 5), 3), round(rng.uniform(5, 120), 2)])
